@@ -65,7 +65,8 @@ def _run_one(args):
     try:
         mod = importlib.import_module(f"rules.{prop.lower()}")
         ctx = Ctx(prop, Index(root, overlay), "quick")
-        mod.run(ctx)
+        from sa.cli import run_rules
+        run_rules(mod, ctx, prop)
     except AnalysisError as e:
         return v.id, "undecided", f"{e.rule} {e.site}: {e}"
     except Exception as e:  # noqa: BLE001
@@ -222,7 +223,8 @@ def _run_seeded(args):
     try:
         mod = importlib.import_module(f"rules.{prop.lower()}")
         ctx = Ctx(prop, Index(root, overlay), "quick")
-        mod.run(ctx)
+        from sa.cli import run_rules
+        run_rules(mod, ctx, prop)
     except AnalysisError as e:
         return name, kind, "undecided", f"{e.rule} {e.site}: {e}"[:200]
     except Exception as e:  # noqa: BLE001
